@@ -7,12 +7,12 @@ Import ListNotations.
 Open Scope N_scope.
 
 Section Reach.
-  Variables (P : params) (gs ls : N * N) (ops : list op).
+  Variables (P : params) (cr : N) (gs ls : N * N) (ops : list op).
   Hypothesis Hgs : schema_wf gs.
   Hypothesis Hls : schema_wf ls.
   Hypothesis Hwf : Forall op_wf ops.
   Hypothesis Hvol : volume ops < 2 ^ 64.
-  Let w := run P (winit gs ls) ops.
+  Let w := run P (winit cr gs ls) ops.
 
   Lemma reach : Inv w (volume ops).
   Proof. apply reach_inv; assumption. Qed.
@@ -98,8 +98,19 @@ Qed.
    counts before checkCounts refuses them; only the discarded child cow protects the state *)
 Definition P0 : params := mkPar 64 32768 128 128.
 Lemma put_writes_before_check :
-  let w := winit (1, 0) (0, 0) in
+  let w := winit 1 (1, 0) (0, 0) in
   exists w' s, run_script P0 false 1 [] [SGlobalPut [1] (TVu 7); SGlobalPut [2] (TVu 8)] w = (w', Err R_LOGIC) /\
     w_global w' = Some s /\ count_kv (st_kv s) = (2, 0) /\ w_gschema w' = (1, 0) /\
     fst (step P0 w (OCall 1 [] NoOp [SGlobalPut [1] (TVu 7); SGlobalPut [2] (TVu 8)])) = w.
 Proof. vm_compute. eexists _, _. repeat split. Qed.
+
+(* a defect of the copy-on-write layer that the transcription reproduces: after the creator
+   closed out of its own application, an update of the application by somebody else in the
+   same block is refused (recovered panic in AccountDeltas.ModifiedAccounts), although the
+   same update is accepted in the next block *)
+Lemma update_after_creator_closeout :
+  let w := run P0 (winit 1 (1, 1) (1, 1)) [OCall 1 [] OptIn []; OEndBlock; OCall 1 [] CloseOut []] in
+  snd (step P0 w (OCall 2 [] (UpdateApp (0, 0)) [])) = Err R_APPLY /\
+  snd (step P0 (end_block w) (OCall 2 [] (UpdateApp (0, 0)) [])) = Ok [] /\
+  snd (step P0 w (OCall 1 [] (UpdateApp (0, 0)) [])) = Ok [].
+Proof. vm_compute. repeat split. Qed.
